@@ -830,12 +830,17 @@ def remap_by_types(
                 if isinstance(t_node.func.value, ast.Attribute):
                     found_type = self.lookup_type(t_node.func.value.value)
                     # Only an object of a declared class can have a parameterized property (not a
-                    # literal, a callable, ...)
+                    # literal, a callable, ...). A field of a dataclass (the one made for a
+                    # dictionary literal) is not a property either.
                     if (
                         found_type is not None
                         and found_type is not Any
                         and inspect.isclass(found_type)
                         and found_type.__module__ != "builtins"
+                        and not (
+                            is_dataclass(found_type)
+                            and not hasattr(found_type, t_node.func.value.attr)
+                        )
                     ):
                         t_node = self.process_parameterized_method_call(
                             t_node,
